@@ -9,3 +9,4 @@ INVARIANT Resume
 INVARIANT Keys
 INVARIANT ClassTotal
 INVARIANT HistOk
+INVARIANT NoHidden
